@@ -1,7 +1,7 @@
 (** C01 — the point path: cellIDFromPoint always returns a valid leaf (closed, for every
     triple of floats including NaN/Inf/zero), and the leaf contains the point under the
     named numeric hypotheses H_FACEUV / H_UVROUNDTRIP. *)
-From Coq Require Import ZArith List Bool Lia Floats Reals.
+From Coq Require Import ZArith List Bool Lia Floats Reals Lra.
 From Geo Require Import Base.GoPrim Base.F64 Base.F64Arith Gen.CellIDFull Model.CellIDTables
   Proofs.C01_Bits Proofs.C01_Algebra Proofs.C01_IJ Proofs.StUV_Mono.
 Import ListNotations.
@@ -68,4 +68,98 @@ Proof.
   rewrite <- E in Hrep. exists f, k. split; [exact Hf|]. split; [exact Hrep|].
   split; [exact (IsValid_rep _ _ _ _ Hrep)|]. split; [apply (IsLeaf_rep _ _ _ _ Hrep); reflexivity|].
   exact (Level_rep _ _ _ _ Hrep).
+Qed.
+
+(** ** the leaf contains the point, under the numeric hypotheses *)
+Definition dblEps : float := (0x1p-52)%float.
+
+(** u is within 2^-52 (float subtraction/addition as in r1.Interval.Expanded) of [lo, hi] *)
+Definition uv_within (lo hi u : float) : Prop :=
+  nonnan lo /\ nonnan hi /\ nonnan u /\ nonnan (PrimFloat.sub lo dblEps) /\ nonnan (PrimFloat.add hi dblEps) /\
+  (rank lo <= rank hi)%R /\ (rank (PrimFloat.sub lo dblEps) <= rank u <= rank (PrimFloat.add hi dblEps))%R.
+
+(** H-UVROUNDTRIP (DESIGN.md section 4): a statement about float64 arithmetic only. *)
+Definition uv_roundtrip_at (u : float) : Prop :=
+  let i := s2_stToIJ (s2_uvToST u) in
+  uv_within (s2_stToUV (s2_ijToSTMin i)) (s2_stToUV (s2_ijToSTMin (i + 1))) u.
+Definition H_UVROUNDTRIP : Prop := forall u, inR (-1) 1 u -> uv_roundtrip_at u.
+
+(** the projection of p on its own face succeeds with |u|,|v| <= 1 (true of every finite non-zero p) *)
+Definition H_FACEUV (p : s2_Point) : Prop :=
+  let '(f, u, v) := s2_xyzToFaceUV (s2_Point_Vector p) in
+  s2_faceXYZToUV f p = (u, v, true) /\ inR (-1) 1 u /\ inR (-1) 1 v.
+
+Lemma interval_expanded_contains : forall lo hi u, uv_within lo hi u ->
+  r1_Interval_IsEmpty (r1_Interval_Expanded (mk_r1_Interval lo hi) dblEps) = false /\
+  r1_Interval_Contains (r1_Interval_Expanded (mk_r1_Interval lo hi) dblEps) u = true.
+Proof.
+  intros lo hi u (Nlo & Nhi & Nu & Nl & Nh & Hle & Hlo & Hhi).
+  unfold r1_Interval_Expanded, r1_Interval_IsEmpty, r1_Interval_Contains.
+  cbn [r1_Interval_Lo r1_Interval_Hi].
+  assert (E : PrimFloat.ltb hi lo = false) by (float_cmp_to_R; exact Hle).
+  rewrite E. cbn [r1_Interval_Lo r1_Interval_Hi]. split.
+  - float_cmp_to_R. lra.
+  - apply andb_true_iff. split; float_cmp_to_R; assumption.
+Qed.
+
+Lemma land_m1 : forall x, Z.land x (wrap_i64 (- 1)) = x.
+Proof. intros x. change (wrap_i64 (- 1)) with (-1). apply Z.land_m1_r. Qed.
+
+Theorem leaf_contains : H_UVROUNDTRIP -> forall p, H_FACEUV p ->
+  s2_Cell_ContainsPoint (s2_CellFromCellID (s2_cellIDFromPoint p)) p = true.
+Proof.
+  intros HU p HF. unfold H_FACEUV in HF.
+  pose proof (cellIDFromPoint_eq p) as E.
+  pose proof (xyzToFaceUV_face (s2_Point_Vector p)) as Ef.
+  destruct (s2_xyzToFaceUV (s2_Point_Vector p)) as [[f u] v]. cbn [fst] in Ef.
+  destruct HF as (Hok & Hu & Hv).
+  pose proof (face_range (s2_Point_Vector p)) as Hf. rewrite <- Ef in Hf.
+  pose proof (stToIJ_range (s2_uvToST u)) as Ri. pose proof (stToIJ_range (s2_uvToST v)) as Rj.
+  change (2 ^ 30) with 1073741824 in Ri, Rj.
+  set (i := s2_stToIJ (s2_uvToST u)) in *. set (j := s2_stToIJ (s2_uvToST v)) in *.
+  destruct (ij_roundtrip f i j Hf Ri Rj) as (o & k & Ho & Hrep & Hij).
+  rewrite <- E in Hrep, Hij.
+  unfold s2_CellFromCellID. cbv zeta. cbv beta iota delta [set_s2_Cell_id s2_Cell_id set_s2_Cell_face set_s2_Cell_level set_s2_Cell_orientation set_s2_Cell_uv s2_Cell_face s2_Cell_level s2_Cell_orientation s2_Cell_uv].
+  rewrite Hij. cbv beta iota delta [set_s2_Cell_id s2_Cell_id set_s2_Cell_face set_s2_Cell_level set_s2_Cell_orientation set_s2_Cell_uv s2_Cell_face s2_Cell_level s2_Cell_orientation s2_Cell_uv].
+  rewrite (Level_rep _ _ _ _ Hrep).
+  unfold s2_Cell_ContainsPoint. cbv zeta. cbv beta iota delta [set_s2_Cell_id s2_Cell_id set_s2_Cell_face set_s2_Cell_level set_s2_Cell_orientation set_s2_Cell_uv s2_Cell_face s2_Cell_level s2_Cell_orientation s2_Cell_uv].
+  assert (Ef8 : wrap_i64 (wrap_i8 f) = f).
+  { assert (Hc : f = 0 \/ f = 1 \/ f = 2 \/ f = 3 \/ f = 4 \/ f = 5) by lia.
+    destruct Hc as [-> | [-> | [-> | [-> | [-> | ->]]]]]; reflexivity. }
+  rewrite Ef8, Hok. cbn [negb set_r2_Point_X set_r2_Point_Y].
+  change (wrap_i64 (wrap_i8 30)) with 30.
+  unfold s2_ijLevelToBoundUV. cbv zeta. change (s2_sizeIJ 30) with 1.
+  rewrite !land_m1. rewrite !(wrap_i64_small (_ + 1)) by (change (2 ^ 63) with 9223372036854775808; lia).
+  pose proof (interval_expanded_contains _ _ _ (HU u Hu)) as (EX & CX). fold i in EX, CX.
+  pose proof (interval_expanded_contains _ _ _ (HU v Hv)) as (EY & CY). fold j in EY, CY.
+  unfold r2_Rect_ExpandedByMargin, r2_Rect_Expanded. cbv zeta.
+  cbn [r2_Rect_X r2_Rect_Y r2_Point_X r2_Point_Y].
+  change (0x1p-52)%float with dblEps.
+  rewrite EX, EY. cbn [orb]. unfold r2_Rect_ContainsPoint. cbn [r2_Rect_X r2_Rect_Y r2_Point_X r2_Point_Y].
+  cbv beta iota delta [set_r2_Point_X set_r2_Point_Y r2_Point_X r2_Point_Y]. rewrite CX, CY. reflexivity.
+Qed.
+
+(** the hypotheses are satisfiable: H_FACEUV holds of the face-0 centre, and the body of
+    H_UVROUNDTRIP holds at u = 0 and u = 1 (checked by evaluation) *)
+Example H_FACEUV_example : H_FACEUV (mk_s2_Point (mk_r3_Vector 1 0 0)).
+Proof.
+  unfold H_FACEUV. vm_compute s2_xyzToFaceUV. split; [vm_compute; reflexivity|].
+  split; (split; [exact zero_fin|rewrite zero_RV; lra]).
+Qed.
+
+Lemma uv_within_by_eval : forall lo hi u,
+  go_isnan lo = false -> go_isnan hi = false -> go_isnan u = false ->
+  go_isnan (PrimFloat.sub lo dblEps) = false -> go_isnan (PrimFloat.add hi dblEps) = false ->
+  PrimFloat.leb lo hi = true -> PrimFloat.leb (PrimFloat.sub lo dblEps) u = true ->
+  PrimFloat.leb u (PrimFloat.add hi dblEps) = true -> uv_within lo hi u.
+Proof.
+  intros lo hi u N1 N2 N3 N4 N5 L1 L2 L3. unfold uv_within.
+  repeat split; try assumption; float_cmp_to_R; assumption.
+Qed.
+
+Example H_UVROUNDTRIP_instances :
+  uv_roundtrip_at 0%float /\ uv_roundtrip_at 1%float /\ uv_roundtrip_at (-1)%float /\
+  uv_roundtrip_at (0x1.ff8a824e9296ap-1)%float.
+Proof.
+  split; [|split; [|split]]; unfold uv_roundtrip_at; cbv zeta; apply uv_within_by_eval; vm_compute; reflexivity.
 Qed.
